@@ -35,6 +35,7 @@ RULE = (
     " 1/2/5/13/19, error-index 0/1/5, bindings echoed or absent) or cuts one GETBULK answer t"
     "o 0..2 bindings: every operation ends within 2*(instances+roots)+4 requests and never re"
     "peats the refused request."
+    " One client runs 320 lenient walks against differently faulty devices."
 )
 ASSUMPTIONS = [
     "every requested column is answered (truncation belongs to C02)",
